@@ -10,7 +10,7 @@ from sa.exc import CANCELLED
 from sa.flow import FnExit, Interp, TestAtom, WithEnter, call_of
 
 CLAIM = {
-    "text": "Decides the plumbing invariants of the three generator-driving layers (the low-level stream server's client task, the high-level stream and datagram handler generators, the datagram server's inner loop) and of the two request receivers: every async generator created there is closed (aclose awaited) on every exit edge and never driven after its close or replaced while live; every action (a received request, a thrown error, an upward-yielded value) is forwarded to the current generator exactly once - never dropped, overwritten or replayed, in particular not across a generator restart; the timeout passed to the next wait is the one most recently yielded by the current generator and is used for exactly one wait; the receivers drain before reading, feed every chunk they read, turn disconnects into StopAsyncIteration and every other outcome into a ThrowAction (so a parse error is thrown into the handler at its position instead of killing the task), and yield shielded when a request was already buffered; a new wait is only started after re-testing that the connection is not closing. The server-side client API stores its closing flag before it closes the connection on the graceful and on the cancelled path (close-path typestate of C14), and the caller's buffer lent to the event loop by the buffered receive path is withdrawn on every exit (lend typestate of C10). The asyncio transport under both receive paths reads its raw buffer only as `[:level]`, conserves bytes in its copy-out paths and keeps its read water marks within the buffer (rules of C10/C03).",
+    "text": "Decides the plumbing invariants of the three generator-driving layers (the low-level stream server's client task, the high-level stream and datagram handler generators, the datagram server's inner loop) and of the two request receivers: every async generator created there is closed (aclose awaited) on every exit edge and never driven after its close or replaced while live; every action (a received request, a thrown error, an upward-yielded value) is forwarded to the current generator exactly once - never dropped, overwritten or replayed, in particular not across a generator restart; the timeout passed to the next wait is the one most recently yielded by the current generator and is used for exactly one wait; the receivers drain before reading, feed every chunk they read, turn disconnects into StopAsyncIteration and every other outcome into a ThrowAction (so a parse error is thrown into the handler at its position instead of killing the task), and yield shielded when a request was already buffered; a new wait is only started after re-testing that the connection is not closing. The server-side client API stores its closing flag before it closes the connection on the graceful and on the cancelled path (close-path typestate of C14), and the caller's buffer lent to the event loop by the buffered receive path is withdrawn on every exit (lend typestate of C10). The asyncio transport under both receive paths reads its raw buffer only as `[:level]`, conserves bytes in its copy-out paths and keeps its read water marks within the buffer (rules of C10/C03). Round 4: is_closing() of the asyncio stream transport answers from the adapter's own flag only (raised only in its close paths); the framing helpers under the buffered request receiver search and read only the received part of the buffer (C02.bound, C01.scan); the buffer lent to the event loop is withdrawn in the callback.",
     "note": "Trusted: AsyncGenAction.asend semantics (SendAction->asend, ThrowAction->athrow); the consumers deliver requests in stream order (C01/C02/C03). Not decided: value-level ordering inside the serializers; that TimeoutError is raised only if no request arrived in time (time).",
     "technique": "typestate by abstract interpretation: generator lifecycle (none/live/closed), action linearity (fresh/used), timeout provenance (fresh/stale/consumed), gate-before-wait; exception containment for the receivers; sibling comparison",
 }
@@ -459,6 +459,32 @@ def check_conn(eng, run):
     run.ob("C15.conn", f"{h.short}:no-return-before-request-phase", not an.viol)
 
 
+def check_own_closing_flag(eng, run):
+    """the request loop runs `while not transport.is_closing()`: for the asyncio stream transport that answer must be the adapter's own
+    flag (set by its aclose()), not the state of the asyncio transport underneath - that one turns true as soon as the socket
+    fails (RST), while complete requests are still buffered and must be delivered first"""
+    n = 0
+    for ci in eng.db.classes.values():
+        if not ci.module.name.endswith("_asyncio.stream.socket"):
+            continue
+        fn = ci.find_method("is_closing")
+        if fn is None or ci.find_method("aclose") is None or fn.cls is not ci:
+            continue
+        n += 1
+        rets = [r for r in own_nodes(fn.node) if isinstance(r, ast.Return) and r.value is not None]
+        calls = [c for r in rets for c in ast.walk(r.value) if isinstance(c, ast.Call)]
+        flags = {a.attr for r in rets for a in ast.walk(r.value) if isinstance(a, ast.Attribute) and dotted(a.value) == fn.self_name}
+        # the flags are raised only by the class' own close paths
+        setters = {m.name for m in ci.methods.values() for st in own_nodes(m.node) if isinstance(st, (ast.Assign, ast.AnnAssign)) and isinstance(getattr(st, "value", None), ast.Constant) and st.value.value is True
+                   for t in (st.targets if isinstance(st, ast.Assign) else [st.target]) if isinstance(t, ast.Attribute) and t.attr in flags}
+        ok = bool(rets) and not calls and bool(flags) and setters <= {"aclose", "close", "__del__", "abort"}
+        if not ok:
+            run.finding("C15.conn", fn, rets[0] if rets else fn.node, "is_closing() of the asyncio stream transport no longer answers from the adapter's own flag alone (it consults the asyncio transport / a flag raised "
+                        "outside the close paths): after a connection reset the request loop stops although complete requests are still buffered - they never reach the handler")
+        run.ob("C15.conn", f"{ci.name}.is_closing:own-flag-only", ok, flags=sorted(flags), raised_in=sorted(setters))
+    run.floor("C15.conn asyncio stream transports with their own closing flag", n, 1)
+
+
 def check_shared(eng, run):
     """(a) the restart loop of the high-level handler stops on client.is_closing(): the server-side client API stores its closing flag
     before it closes the connection, on the graceful and on the cancelled path alike (close-path typestate of C14);
@@ -474,20 +500,29 @@ def check_shared(eng, run):
         raise AnalysisError("anchor vanished: _ConnectedClientAPI.aclose")
     c14.check_close_path(eng, RuleAlias(run, "C15.conn"), CloserRegistry(eng), fn)
     c10.check_lend(eng, run, rule="C15.recv", cancel_arm=False)
+    c10.check_withdraw(eng, run, rule="C15.recv")
     # the asyncio transport under both receive paths of the server: received bytes are neither lost nor replaced on their way out of
     # the protocol's internal buffer (bounded raw-buffer reads, byte conservation, read water marks within the buffer: rules of C10/C03)
     from rules import c03
     c10.check_raw_buffer_reads(eng, run, rule="C15.recv")
     c10.check_conservation(eng, run, rule="C15.recv")
     c03.check_water_marks(eng, run, rule="C15.recv")
+    # the framing helpers the buffered request receiver drives: searches and reads stay within the received part of the
+    # pre-allocated buffer (a stale separator from an earlier, longer request otherwise ends the next request early)
+    from rules import c01, c02
+    c02.check_bound(eng, RuleAlias(run, "C15.recv"))
+    c01.check_scan(eng, RuleAlias(run, "C15.recv"))
 
 
 def run(eng, run):
+    from sa.anchors import verify as _verify_anchor_names
+    _verify_anchor_names(eng, run)
     run.not_decided += NOT_DECIDED
     check_drive(eng, run)
     check_receivers(eng, run)
     check_conn(eng, run)
     check_shared(eng, run)
+    check_own_closing_flag(eng, run)
 
 
 # ---------------------------------------------------------------------------------------------- self-test corpus
